@@ -77,6 +77,15 @@ def perms : List Eni → List (List Eni)
 
 def step (op : String) (args : List String) : Option String :=
   match op, args with
+  | "pods", en4 :: en6 :: er :: pods => do
+    -- pod: name/host/useeni/exited/erdmaInit/erdmaMain
+    let ps ← pods.mapM fun t =>
+      match t.splitOn "/" with
+      | [n, h, u, x, ei, em] => do
+        pure ({ name := n, hostNetwork := ← bool? h, useENI := ← bool? u, exited := ← bool? x, erdmaInit := ← bool? ei, erdmaMain := ← bool? em } : RawPod)
+      | _ => none
+    let out := (getPods (← bool? en4) (← bool? en6) (← bool? er) ps).mergeSort fun a b => decide (a.1 ≤ b.1)
+    pure (joinD "," (out.map fun r => s!"{r.1}:{boolStr r.2.1}:{boolStr r.2.2.1}:{boolStr r.2.2.2}"))
   | "merge", [remote, current] => do
     let r ← (list? remote ",").mapM entry?
     let c ← (list? current ",").mapM entry?
